@@ -212,11 +212,11 @@ Theorem mdspan_pack_rules m args :
 Proof.
   unfold mds_from_pack, count_ok. rewrite !andb_true_iff, forallb_forall, orb_true_iff, !Nat.eqb_eq, Forall_forall. tauto.
 Qed.
-(* a class whose conversion may throw, and a type without conversion, are never accepted *)
-Theorem invalid_args_rejected e a args1 args2 : (a = AClassThrow \/ a = ANone) -> ext_from_pack e (args1 ++ a :: args2) = false.
+(* a class whose conversion may throw, a class whose conversion is explicit, and a type without conversion, are never accepted *)
+Theorem invalid_args_rejected e a args1 args2 : (a = AClassThrow \/ a = AClassExplicit \/ a = ANone) -> ext_from_pack e (args1 ++ a :: args2) = false.
 Proof.
   intros Ha. unfold ext_from_pack. destruct (args1 ++ a :: args2) eqn:E; [destruct args1; discriminate|]. rewrite <- E.
-  apply andb_false_iff. left. rewrite forallb_app. cbn [forallb]. destruct Ha as [-> | ->]; cbn [arg_valid andb]; apply andb_false_r.
+  apply andb_false_iff. left. rewrite forallb_app. cbn [forallb]. destruct Ha as [-> | [-> | ->]]; cbn [arg_valid andb]; apply andb_false_r.
 Qed.
 
 (* ---- widening the index type keeps a mapping valid; the implicit same-layout conversions, all three ---- *)
